@@ -36,7 +36,7 @@ TOL_DYN = 1e-11        # M, bias, passive, actuator forces (sums over bodies, ca
 TOL_ACC = 1e-12        # * max(1, cond(M)): qacc_smooth = M^-1 f
 TOL_CONTACT = 1e-11    # contact dist/pos/frame of analytic primitives (plane/sphere/capsule)
 TOL_EFC = 1e-9         # efc rows (J, aref, D): D = 1/R amplifies impedance rounding
-TOL_SOLVE = 5e-7       # * max(1, cond(M)): qacc / qfrc_constraint; Newton, tolerance=0, 60 iterations in both engines;
+TOL_SOLVE = 5e-7       # * max(1, cond(M)): qacc / qfrc_constraint; Newton, tolerance=1e-15, 60 iterations in both engines;
                        # thorough run: worst err/cond(M) = 7e-9 (qfrc_constraint), 4e-9 (step.qvel)
 TOL_STEP = 5e-7        # * max(1, cond(M)): next state
 TOL_SENS = 1e-11       # sensordata (pos/vel stages); acc-stage sensors use 10*TOL_SOLVE*cond
@@ -133,6 +133,16 @@ def cross_tree_tendon(tm, field):
   return False
 
 
+def spatial_tendon_armature(tm):
+  if not tm.ntendon:
+    return False
+  wt = np.asarray(tm.wrap_type)
+  for t in range(tm.ntendon):
+    if tm.tendon_armature[t] > 0 and int(wt[int(tm.tendon_adr[t])]) != 1:     # mjWRAP_JOINT == 1: fixed tendon
+      return True
+  return False
+
+
 def full_m_mjx(mjx, mx, dxi):
   from mujoco.mjx._src import support
   M = np.asarray(dxi._impl.M)
@@ -169,7 +179,11 @@ def match_contacts(tm, td, dxi, info):
   dofless = info['body_dofless']
   gb = np.asarray(tm.geom_bodyid)
   cact = [i for i in range(con.size) if not con['exclude'][i]]
-  xact = [i for i in range(xdist.size) if xdist[i] < xinc[i] and not (dofless[gb[xgeom[i][0]]] and dofless[gb[xgeom[i][1]]])]
+  xall = [i for i in range(xdist.size) if xdist[i] < xinc[i]]
+  xact = [i for i in xall if not (dofless[gb[xgeom[i][0]]] and dofless[gb[xgeom[i][1]]])]
+  # ... and they are not harmless: both bodies have zero inverse weight, so R = mjMINVAL, D = 1e15 and the constant cost
+  # 0.5*D*aref^2 swamps the solver's cost comparisons (observed: MJX returns qacc_smooth, cost 905 vs optimum 529)
+  static_contact = len(xall) != len(xact)
   byc = collections.defaultdict(list)
   byx = collections.defaultdict(list)
   for i in cact:
@@ -195,6 +209,8 @@ def match_contacts(tm, td, dxi, info):
       j = min(lx, key=lambda j: float(np.linalg.norm(np.asarray(cx.pos[j]) - con['pos'][i])))
       lx.remove(j)
       pairs.append((i, j, analytic, '-'.join(sorted(kinds))))
+  if static_contact and status == 'ok':
+    status = 'deviation:dofless-pair-contact'
   return pairs, status
 
 
@@ -379,11 +395,20 @@ def compare_state(ck, lib, c, s, tf, ts, dxf, dxs, worst, info):
   okname = 'ok-loose:capsule-capsule' if loose else 'ok'
 
   # ---- constraints
+  nefc_c = int(tf.nefc)
+  if nefc_c and np.max(np.asarray(tf.efc_D)[:nefc_c]) > 1e12:
+    # rows with (numerically) zero inverse weight, R clamped at mjMINVAL: the two engines clamp before / after the pyramid
+    # scaling (D = 3.4e14 vs 1e15) and the problem is ill-posed either way
+    return dict(status='illconditioned:efc_D', ncon=ncon)
   perm, jdotv = compare_efc(lib, tm, tf, dxf, worst, t_efc)
   nrows = len(perm)
   if jdotv:
     return dict(status='deviation:jdotv', ncon=ncon, nrows=nrows)
   scale = max(1.0, cond)
+  if nefc_c:
+    # qfrc_constraint = J'f and qacc - qacc_smooth = M^-1 J'f cancel when opposing rows carry large forces: the solver
+    # accuracy is relative to |f|, so the tolerance is amplified by |f|max / (1 + |J'f|max)
+    scale *= max(1.0, float(np.max(np.abs(np.asarray(tf.efc_force)[:nefc_c]))) / (1.0 + float(np.max(np.abs(tf.qfrc_constraint)))))
   chk('qacc' + tag, tf.qacc, dxf.qacc, t_solve * scale, 'qacc')
   chk('qfrc_constraint' + tag, tf.qfrc_constraint, dxf.qfrc_constraint, t_solve * scale, 'qfrc_constraint')
   if perm:
@@ -409,7 +434,9 @@ def compare_state(ck, lib, c, s, tf, ts, dxf, dxs, worst, info):
       if (tm.actuator_gainprm[i][2] != 0 and tm.actuator_ctrllimited[i]
           and not (tm.actuator_ctrlrange[i][0] <= s['ctrl'][i] <= tm.actuator_ctrlrange[i][1])):
         skip = 'implicitfast-unclamped-ctrl-derivative'
-  chk('step.act', ts.act, dxs.act, TOL_DYN, 'step-act')
+  if not (info['dsbl_actuation'] and not FINDINGS):
+    # (minor, F26) with actuation disabled mj_advance leaves act untouched, MJX still clamps it to actrange
+    chk('step.act', ts.act, dxs.act, TOL_DYN, 'step-act')
   chk('step.time', np.array([ts.time]), np.array([float(dxs.time)]), 1e-14, 'step')
   if skip:
     return dict(status=okname + '-nostep:' + skip, ncon=ncon, nrows=nrows)
@@ -471,6 +498,11 @@ class Runner:
         # attached to a mocap body are placed relative to the model pose of their parent, not its mocap pose
         ck.discard('finding:child-of-mocap-body-kinematics')
         return
+    if spatial_tendon_armature(c.tm) and not FINDINGS:
+      # candidate finding F29: qfrc_bias term armature*J'*(Jdot v) of a spatial tendon: the C engine matches a finite
+      # difference of ten_J along qvel, smooth.tendon_dot/tendon_bias of MJX is off (factor 1.2075 in the recorded case)
+      ck.discard('finding:spatial-tendon-armature-bias')
+      return
     if cross_tree_tendon(c.tm, 'tendon_armature') and not FINDINGS:
       # candidate finding F21 (C engine): mj_tendonArmature adds armature*J'J only inside the tree-local sparsity pattern
       # of M, entries coupling different kinematic trees are dropped; MJX (dense M) keeps them
